@@ -154,35 +154,53 @@ def rule_PF(facts):
                 out.append(Inst('R-PF', k2, 'violation', f['span'],
                                 'return value is `%s`, not rank_unchecked on the untouched arguments: the estimation phase can influence the answer' % show(ret)[:120], props,
                                 sample={'return': show(ret)}))
-    # (b) prefetch_read_NTA: offset only into wrapping pointer arithmetic, pointer only into the intrinsic
+    # (b) prefetch_read_NTA (and private helpers it hands the pointer to): offset only into wrapping pointer arithmetic,
+    #     pointer only into the prefetch intrinsic, nothing dereferenced, nothing returned
     pf = FA.fns.get('utils::prefetch_read_NTA')
+    pf_closure = []
     if pf is None:
         out.append(Inst('R-PF', 'R-PF|b|prefetch_read_NTA', 'violation', '', 'function not found (anchor lost)', props))
     else:
         bad = []
-        for b in pf['blocks']:
-            t = b['t']
-            if t['k'] == 'call' and 'fn' in t['f']:
-                nm = t['f']['fn']['name']
-                if nm not in PF_ALLOWED:
-                    bad.append('call to `%s`' % t['f']['fn']['path'])
-            if t['k'] == 'assert' and 'bounds' in t.get('msg', {}):
-                bad.append('indexing')
-            for s in b['s']:
-                rv = s.get('rv')
-                if rv:
-                    for o in [rv.get('a'), rv.get('b')] + list(rv.get('ops', [])):
-                        if o and 'p' in o and '*' in o['p']['proj'] and pf['locals'][o['p']['l']].startswith('*'):
+        todo = [pf]
+        seen = set()
+        while todo:
+            g = todo.pop()
+            if g['path'] in seen:
+                continue
+            seen.add(g['path'])
+            pf_closure.append(g['path'])
+            for b in g['blocks']:
+                t = b['t']
+                if t['k'] == 'call' and 'fn' in t['f']:
+                    fn = t['f']['fn']
+                    nm = fn['name']
+                    if nm in PF_ALLOWED:
+                        pass
+                    else:
+                        cands = FA.resolve(fn)
+                        if len(cands) == 1 and not cands[0]['exported'] and cands[0]['path'].startswith('utils::') and cands[0]['locals'][0] == '()':
+                            todo.append(cands[0])     # private hint helper: judged by the same rule
+                        else:
+                            bad.append('call to `%s`' % fn['path'])
+                if t['k'] == 'assert' and 'bounds' in t.get('msg', {}):
+                    bad.append('indexing')
+                for s2 in b['s']:
+                    rv = s2.get('rv')
+                    if rv:
+                        for o in [rv.get('a'), rv.get('b')] + list(rv.get('ops', [])):
+                            if o and 'p' in o and '*' in o['p']['proj'] and g['locals'][o['p']['l']].startswith('*'):
+                                bad.append('dereference of the computed pointer')
+                        if 'p' in rv and '*' in rv['p']['proj'] and g['locals'][rv['p']['l']].startswith('*'):
                             bad.append('dereference of the computed pointer')
-                    if 'p' in rv and '*' in rv['p']['proj'] and pf['locals'][rv['p']['l']].startswith('*'):
-                        bad.append('dereference of the computed pointer')
-        if pf['locals'][0] != '()':
-            bad.append('returns a value (%s)' % pf['locals'][0])
+            if g['locals'][0] != '()':
+                bad.append('returns a value (%s)' % g['locals'][0])
         if bad:
             out.append(Inst('R-PF', 'R-PF|b|prefetch_read_NTA', 'violation', pf['span'],
                             'prefetch address must use wrapping pointer arithmetic and only reach the prefetch intrinsic; found: %s' % '; '.join(sorted(set(bad))), props))
         else:
-            out.append(Inst('R-PF', 'R-PF|b|prefetch_read_NTA', 'ok', pf['span'], 'offset -> wrapping_add -> prefetch intrinsic only; returns ()', props))
+            out.append(Inst('R-PF', 'R-PF|b|prefetch_read_NTA', 'ok', pf['span'], 'offset -> wrapping_add -> prefetch intrinsic only; returns ()', props,
+                            sample={'functions': pf_closure}))
     # (c) prefetch_* implementations: the position only feeds arithmetic and prefetch calls
     n_c = 0
     for f in FA.lib_fns(include_closures=False):
@@ -286,7 +304,7 @@ def rule_PF(facts):
         for p in NF.fns:
             if p not in FA.fns and 'perf_and_test_utils' not in p:
                 diff.append(p + ' (only without the feature)')
-        extra = [p for p in diff if p != 'utils::prefetch_read_NTA']
+        extra = [p for p in diff if p.split(' ')[0] not in (pf_closure or ['utils::prefetch_read_NTA'])]
         if extra:
             out.append(Inst('R-PF', 'R-PF|d|feature-independence', 'violation', '',
                             'bodies other than utils::prefetch_read_NTA differ between feature `prefetch` on and off: %s' % ', '.join(extra[:5]), props))
